@@ -1,0 +1,46 @@
+//go:build verif
+
+package parser
+
+import (
+	"io"
+
+	"github.com/cloudflare/pint/internal/comments"
+	"github.com/cloudflare/pint/internal/diags"
+)
+
+// VerifReaderStep is the state of ContentReader after one readNextLine call.
+type VerifReaderStep struct {
+	Line      string // masked line as handed to the YAML decoder
+	Lineno    int
+	Comments  int // len(ContentReader.comments)
+	Diags     int // len(ContentReader.diagnostics)
+	SkipAll   bool
+	SkipNext  bool
+	AutoReset bool
+	InBegin   bool
+}
+
+// VerifReadLines drives the real ContentReader line by line and records its state after every line.
+func VerifReadLines(src io.Reader) (steps []VerifReaderStep, cs []comments.Comment, ds []diags.Diagnostic) {
+	r := newContentReader(src)
+	for {
+		err := r.readNextLine()
+		if len(r.buf) > 0 {
+			steps = append(steps, VerifReaderStep{
+				Line:      string(r.buf),
+				Lineno:    r.lineno,
+				Comments:  len(r.comments),
+				Diags:     len(r.diagnostics),
+				SkipAll:   r.skipAll,
+				SkipNext:  r.skipNext,
+				AutoReset: r.autoReset,
+				InBegin:   r.inBegin,
+			})
+		}
+		if err != nil {
+			break
+		}
+	}
+	return steps, r.comments, r.diagnostics
+}
